@@ -82,7 +82,7 @@ def broad_cases(draw, max_len=12, allow_nullable=True):
 
     def tweak(node, top=True):
         # item-level feature injection (capture definitions only on the executed-exactly-once spine, cf. C05)
-        choice = draw(st.sampled_from(["keep", "keep", "keep", "any-mn", "any-op", "extra-ops", "icap", "ocap", "deref", "shipped", "min0"]))
+        choice = draw(st.sampled_from(["keep", "keep", "keep", "any-mn", "any-op", "extra-ops", "icap", "ocap", "deref", "shipped", "min0", "op-not"]))
         if choice == "keep":
             return node
         name = node if not isinstance(node, dict) else list(node)[0]
@@ -105,6 +105,12 @@ def broad_cases(draw, max_len=12, allow_nullable=True):
             feats.add("extra-operands")
             extra = [draw(st.sampled_from(["@any", "rax", "0x1", "%r8"])) if use_macros else draw(st.sampled_from(["rax", "0x1", "%r8"])) for _ in range(draw(st.integers(1, 3)))]
             return {name: ops + extra}
+        if choice == "op-not":
+            # an operand-level $not at any position up to one past the described operands
+            feats.add("operand-not")
+            k = draw(st.integers(0, len(ops)))
+            ops.insert(k, {"$not": [draw(st.sampled_from(["zz", "%rsp", "0x77", "rax"]))]})
+            return {name: ops}
         if choice == "icap" and cap_count[0] < 3 and top:
             cap_count[0] += 1
             feats.add("capture")
@@ -144,6 +150,26 @@ def broad_cases(draw, max_len=12, allow_nullable=True):
                         node[name][z] = {"$deref": fields}
                         feats.add("deref")
                         break
+    # a capture used twice (back-reference): two spine items whose instructions are identical, or share their first operand
+    if draw(st.integers(0, 2)) == 0 and cap_count[0] < 3:
+        span = list(range(i, min(j, i + len(pattern))))
+        plain = [q for q in range(len(pattern)) if (isinstance(pattern[q], (str, int)) and not str(pattern[q]).startswith(("@", "&"))) or (isinstance(pattern[q], dict) and "times" not in pattern[q]
+                 and not str(list(pattern[q])[0]).startswith(("$", "&", "@")) and isinstance(pattern[q][list(pattern[q])[0]], list))]
+        # only when the rule is a flat description (item q describes instruction i+q)
+        flat = len(pattern) == j - i and all(isinstance(x, (str, int)) or (isinstance(x, dict) and not str(list(x)[0]).startswith("$") and "times" not in x) for x in pattern)
+        if flat and len(plain) >= 2:
+            a_, b_ = sorted(draw(st.permutations(plain))[:2])
+            ia, ib = NV[i + a_], NV[i + b_]
+            cap_count[0] += 1
+            if ia[1:] == ib[1:] and draw(st.booleans()):
+                pattern[a_] = pattern[b_] = f"&i{cap_count[0]}"
+                feats.add("capture-reuse")
+            elif ia[2] and ib[2] and ia[2][0] == ib[2][0] and ia[2][0] != "":
+                for q, ins in ((a_, ia), (b_, ib)):
+                    nm = pattern[q] if isinstance(pattern[q], (str, int)) else list(pattern[q])[0]
+                    rest = pattern[q][nm][1:] if isinstance(pattern[q], dict) else []
+                    pattern[q] = {nm: [f"&x{cap_count[0]}"] + [r for r in rest if not isinstance(r, dict) or "$not" not in r]}
+                feats.add("capture-reuse")
     if pattern and isinstance(pattern[0], dict) and list(pattern[0])[0] in ("$not", "$or", "$and_any_order"):
         feats.add("leading=" + list(pattern[0])[0])
     if pattern and isinstance(pattern[0], str) and pattern[0].startswith("&"):
